@@ -11,10 +11,13 @@ import (
 // component 102 — commitment scripts on a REAL cluster, compared with Model/ClusterCommit.v (cstep):
 // component 101 plus
 //
-//	12 n   the n-th answer a follower's handler gave is processed by the replication code of the
-//	       leader that sent the request (hook VerifProcessAppendResponse = the branches of replicateTo
-//	       after the call: handleStaleTerm / updateLastAppended -> commitment.match); the REAL leader
-//	       loop then advances the commit index and hands the entries to the REAL FSM goroutine.
+//	8 i j next last  the REAL replicateTo(j, last) runs at leader i (hook VerifReplicateTo, in its own goroutine): it
+//	       builds the request from the follower's real nextIndex (= next) and blocks in the transport
+//	12 n   the n-th answer a follower's handler gave, which answers the request replicateTo is blocked in,
+//	       returns to it: the REAL code processes it (handleStaleTerm / updateLastAppended -> commitment.match /
+//	       nextIndex) and builds the next request (a further op 8) or returns; the REAL leader loop then advances
+//	       the commit index and hands the entries to the REAL FSM goroutine
+//	13 i j the blocked call fails instead (timeout): its answer is never used
 //
 // observed per op: 1 ; per server: role term voteTerm voteCand+1 lastIndex commit applied nfsm fsm* nlog (idx term type data)* ;
 // Leader transitions ; requests ; answers ; the newest request
@@ -67,6 +70,10 @@ func c102monitor(cw *caseWriter, tag string, in []uint64, obs []uint64) {
 	}
 	nops := 0
 	for q := 1 + n; q < len(in); {
+		if in[q] == 99 {
+			q++
+			continue
+		}
 		l := lgOpLen[in[q]]
 		if l == 0 || q+l > len(in) {
 			break
@@ -74,12 +81,19 @@ func c102monitor(cw *caseWriter, tag string, in []uint64, obs []uint64) {
 		if in[q] == 12 {
 			cw.stats["c102_answers_processed"]++
 		}
+		if in[q] == 13 {
+			cw.stats["c102_calls_failed"]++
+		}
 		q += l
 		nops++
 	}
 	p := 0
 	var maxCommit uint64
 	for step := 0; p < len(obs) && step < nops; step++ {
+		if obs[p] == 2 { // a step whose resulting state was not observed
+			p++
+			continue
+		}
 		p++
 		nodes := make([]node, n)
 		for i := 0; i < n; i++ {
@@ -94,6 +108,7 @@ func c102monitor(cw *caseWriter, tag string, in []uint64, obs []uint64) {
 				nd.log[obs[p]] = ent{obs[p+1], obs[p+2], obs[p+3]}
 				p += 4
 			}
+			p += 1 + int(obs[p]) // a leader's nextIndex per peer
 			nodes[i] = nd
 			maxCommit = max(maxCommit, nd.commit)
 			if nd.applied > nd.commit || nd.commit > nd.last {
